@@ -68,6 +68,64 @@ fn snapshots(ctx: &mut Ctx, z: &[u8], zlib: bool, expect_len: usize, seed: u64) 
     }
 }
 
+/// Clone of the streaming decoder (`InflateState`: inner decoder + 32 KiB window + hand-over
+/// cursors) at call boundaries of a scheduled decode, continued with the remaining schedule and
+/// compared call by call with the uninterrupted run.  Boundaries where the output so far is a
+/// multiple of the window, and boundaries after an input-starved call, are always taken.
+fn state_snapshots(ctx: &mut Ctx, data: &[u8], level: u8, zlib: bool, seed: u64) {
+    use miniz_oxide::inflate::stream::{inflate, InflateState};
+    use miniz_oxide::{DataFormat, MZFlush};
+    let id = ctx.id();
+    let replay = format!("STSNAP fmt={} level={} seed={} in={}", zlib as u8, level, seed, hex(data));
+    ctx.eval(fnv(data) ^ seed ^ 0x5157);
+    ctx.count("state_snapshot_streams");
+    let z = if zlib { miniz_oxide::deflate::compress_to_vec_zlib(data, level) } else { miniz_oxide::deflate::compress_to_vec(data, level) };
+    let fmt = if zlib { DataFormat::Zlib } else { DataFormat::Raw };
+    let mut rng = crate::rng::Rng::new(seed);
+    let in_style = rng.below(3); let out_style = rng.below(4);
+    // the uninterrupted run: schedule, per-call results, clones at the chosen boundaries
+    let mut st = InflateState::new_boxed(fmt);
+    let mut sched: Vec<(usize, usize, i32)> = vec![];
+    let mut results: Vec<(i32, usize, usize)> = vec![];
+    let mut outs: Vec<Vec<u8>> = vec![];
+    let mut snaps: Vec<(usize, usize, Box<InflateState>)> = vec![]; // (call index, input position, clone)
+    let (mut ipos, mut total_out) = (0usize, 0usize);
+    let mut starved = false;
+    for call in 0..100000 {
+        if call < 6 || total_out % 32768 == 0 || starved || rng.chance(1, 12) { if snaps.len() < 160 { snaps.push((call, ipos, st.clone())); } }
+        let left = z.len() - ipos;
+        let ain = match in_style { 0 => rng.range(1, 1500).min(left), 1 => 1000.min(left), _ => left };
+        let aout = match out_style { 0 => 4096, 1 => *rng.pick(&[1024usize, 2048, 8192, 16384, 32768]), 2 => rng.range(1, 9000), _ => 70000 };
+        let flush = if ain == left && rng.chance(1, 4) { 4 } else { *rng.pick(&[0, 0, 2]) };
+        let mut out = vec![0u8; aout];
+        let r = inflate(&mut st, &z[ipos..ipos + ain], &mut out, MZFlush::new(flush).unwrap());
+        let rc = match r.status { Ok(s) => s as i32, Err(e) => e as i32 };
+        sched.push((ain, aout, flush)); results.push((rc, r.bytes_consumed, r.bytes_written)); out.truncate(r.bytes_written);
+        starved = r.bytes_written < aout && r.bytes_consumed == ain && rc == 0;
+        ipos += r.bytes_consumed; total_out += r.bytes_written; outs.push(out);
+        if rc != 0 && !(rc == -5 && (r.bytes_consumed > 0 || r.bytes_written > 0)) { break; }
+        if flush == 4 && rc == -5 { break; }
+    }
+    ctx.count_n("state_snapshot_calls", sched.len() as u64);
+    for (k, ip, snap) in snaps.into_iter() {
+        let mut c = snap; let mut ipos = ip;
+        ctx.count("state_clone_points");
+        for j in k..sched.len() {
+            let (_, aout, flush) = sched[j];
+            // the same input offer as the uninterrupted run made at this call
+            let ain = sched[j].0;
+            let mut out = vec![0u8; aout];
+            let r = inflate(&mut c, &z[ipos..ipos + ain], &mut out, MZFlush::new(flush).unwrap());
+            let rc = match r.status { Ok(s) => s as i32, Err(e) => e as i32 };
+            if (rc, r.bytes_consumed, r.bytes_written) != results[j] || out[..r.bytes_written] != outs[j][..] {
+                ctx.violation(id, "state_clone", format!("clone of the streaming decoder taken before call {} (of {}): call {} gave ({}, {}, {}) / {} output bytes equal, uninterrupted gave {:?}", k, sched.len(), j, rc, r.bytes_consumed, r.bytes_written, out[..r.bytes_written].iter().zip(outs[j].iter()).take_while(|(a, b)| a == b).count(), results[j]), replay.clone());
+                return;
+            }
+            ipos += r.bytes_consumed;
+        }
+    }
+}
+
 /// stop-at-block-boundary: one stop per non-final block; rebuild from the boundary record + 32 KiB of output
 fn boundaries(ctx: &mut Ctx, z: &[u8], zlib: bool, expect_len: usize) {
     let id = ctx.id();
@@ -121,6 +179,7 @@ pub fn run(ctx: &mut Ctx) {
             let kv = crate::kv(rest);
             match tag {
                 "SNAP" => snapshots(ctx, &crate::tx::unhex(&kv["data"]), kv["fmt"] == "1", kv["n"].parse().unwrap(), kv["seed"].parse().unwrap()),
+                "STSNAP" => state_snapshots(ctx, &crate::tx::unhex(&kv["in"]), kv["level"].parse().unwrap(), kv["fmt"] == "1", kv["seed"].parse().unwrap()),
                 "BOUND" => boundaries(ctx, &crate::tx::unhex(&kv["data"]), kv["fmt"] == "1", kv["n"].parse().unwrap()),
                 _ => {}
             }
@@ -133,6 +192,25 @@ pub fn run(ctx: &mut Ctx) {
         let seed = ctx.rng.next();
         snapshots(ctx, &z, sc.zlib, sc.expect_len + if i % 6 == 5 { 70000 } else { 0 }, seed);
         if i % 6 != 5 { boundaries(ctx, &sc.z, sc.zlib, sc.expect_len); }
+    }
+    for i in 0..(6 * ctx.scale) {
+        // long-range redundancy: a noise period just under one window, repeated past two windows
+        let period = ctx.rng.range(20000, 32700);
+        let n = ctx.rng.range(70000, 140000);
+        let block = ctx.rng.bytes(period);
+        let mut d: Vec<u8> = block.iter().cycle().take(n).cloned().collect();
+        if i % 3 == 2 { d = crate::plain::gen(&mut ctx.rng, "repeat_far", n); }
+        let seed = ctx.rng.next();
+        let lv = *ctx.rng.pick(&[1u8, 6, 9]);
+        state_snapshots(ctx, &d, lv, i % 2 == 0, seed);
+    }
+    for _ in 0..(6 * ctx.scale) {
+        let kind = *ctx.rng.pick(crate::plain::KINDS);
+        let n = ctx.rng.range(1, 50000);
+        let d = crate::plain::gen(&mut ctx.rng, kind, n);
+        let seed = ctx.rng.next();
+        let lv = ctx.rng.range(0, 10) as u8; let zl = ctx.rng.chance(1, 2);
+        state_snapshots(ctx, &d, lv, zl, seed);
     }
     ctx.sample("snapshot (clone, rmp-serde round trip) between any two calls of a scheduled flat/ring decode, continued with one schedule and compared; stop-on-block-boundary runs with a decoder rebuilt at every boundary".into());
 }
